@@ -25,9 +25,10 @@ def run_instance(rt, boxes, hitsv, qn, a, b, stride, phase):
     f = lambda x: a * x + b  # noqa: E731
     n = len(boxes)
     try:
-        idx = rt.Index([(i + 1, (f(bx[0]), f(bx[1]), f(bx[2]), f(bx[3]))) for i, bx in enumerate(boxes)])
-    except RecursionError:
-        return [("build.terminates", None, "RecursionError", None)], 0
+        with vlib.time_limit(5.0):
+            idx = rt.Index([(i + 1, (f(bx[0]), f(bx[1]), f(bx[2]), f(bx[3]))) for i, bx in enumerate(boxes)])
+    except (RecursionError, vlib.CallTimeout) as ex:
+        return [("build.terminates", None, type(ex).__name__, None)], 0
     bad = []
     nq = 0
     for c in range(phase % stride, len(hitsv), stride):
@@ -35,7 +36,12 @@ def run_instance(rt, boxes, hitsv, qn, a, b, stride, phase):
         if m < 0:
             continue
         q = q_of(c, qn)
-        got = idx.intersection((f(q[0]), f(q[1]), f(q[2]), f(q[3])))
+        try:
+            with vlib.time_limit(5.0):
+                got = idx.intersection((f(q[0]), f(q[1]), f(q[2]), f(q[3])))
+        except vlib.CallTimeout:
+            bad.append(("query.terminates", None, "no answer within 5 s", list(q)))
+            break
         nq += 1
         want = {i + 1 for i in range(n) if (m >> i) & 1}
         if set(got) != want:
@@ -68,8 +74,9 @@ def record(rt, rng, ncoll, nq):
         cf = float if asf else (lambda z: z)
         evs.append({"ev": "build", "boxes": boxes, "asfloat": asf})
         try:
-            idx = rt.Index([(i + 1, tuple(cf(v) for v in bx)) for i, bx in enumerate(boxes)])
-        except RecursionError:
+            with vlib.time_limit(10.0):
+                idx = rt.Index([(i + 1, tuple(cf(v) for v in bx)) for i, bx in enumerate(boxes)])
+        except (RecursionError, vlib.CallTimeout):
             idx = None
         for _q in range(nq):
             if boxes and rng.random() < 0.5:       # queries touching / on a box edge
@@ -85,9 +92,10 @@ def record(rt, rng, ncoll, nq):
                 evs.append({"ev": "q", "q": q, "res": [], "raised": True})
                 continue
             try:
-                res = sorted(idx.intersection(tuple(cf(v) for v in q)))
+                with vlib.time_limit(5.0):
+                    res = sorted(idx.intersection(tuple(cf(v) for v in q)))
                 evs.append({"ev": "q", "q": q, "res": res, "raised": False})
-            except Exception:  # pylint: disable=broad-except
+            except (Exception, vlib.CallTimeout):  # pylint: disable=broad-except
                 evs.append({"ev": "q", "q": q, "res": [], "raised": True})
     return evs
 
@@ -132,6 +140,8 @@ def run(ctx):
             if not hitsv:
                 continue
             ninst += 1
+            if ctx.enough():
+                continue
             for mi, (a, b) in enumerate(MAPS if (tier == "thorough" or ninst % 3 == 0) else MAPS[:1]):
                 bad, nq = run_instance(rt, boxes, hitsv, qn, a, b, stride, ninst + ctx.seed)
                 ctx.evaluations += nq
@@ -148,7 +158,7 @@ def run(ctx):
     ctx.exhaustive = tier == "thorough"
     # V
     ncoll, nq = (400, 25) if tier == "quick" else (6000, 40)
-    evs = record(rt, rng, ncoll, nq)
+    evs = record(rt, rng, ncoll if not ctx.enough() else 20, nq)
     verdicts = validate(ctx, "v", evs)
     cur = None
     for e, v in zip(evs, verdicts):
